@@ -19,7 +19,13 @@ import warnings
 from array import array
 from collections.abc import Callable
 from functools import wraps
-from multiprocessing import Array, Process, Queue as mp_Queue, RLock as mp_RLock
+from multiprocessing import (
+    Array,
+    Queue as mp_Queue,
+    RLock as mp_RLock,
+    current_process,
+)
+from multiprocessing.process import BaseProcess as Process
 from operator import floordiv
 from queue import Empty, Queue
 from shutil import get_terminal_size as _get_terminal_size
@@ -849,6 +855,14 @@ if OS_IS_UNIX:
         Process._bootstrap = wraps(Process._bootstrap)(  # type: ignore[method-assign]
             _process_run_wrapper
         )
+
+        # This module might've been first imported in a subprocess that has already
+        # started (e.g. within the target of a "spawned" process)
+        if getattr(current_process(), "_tty_lock", None):
+            _tty_lock = current_process()._tty_lock
+        if getattr(current_process(), "_cell_size_cache", None):
+            _cell_size_cache = current_process()._cell_size_cache
+            _cell_size_lock = _cell_size_cache.get_lock()
 
         # Shouldn't be needed since we're getting our own separate file descriptors
         # but the validity of the assumed safety is still under probation
